@@ -15,7 +15,7 @@ import (
 // its own honest transcript, so every deviation that changes handshake bytes
 // also makes the Finished values disagree: the endpoint must never complete.
 
-var scriptFaults = []string{"replace-type", "duplicate", "omit", "truncate-body", "truncate-body+close", "set-byte", "handshake-length", "insert-record", "close-before", "close-inside", "stall", "fragment(legal)", "coalesce(legal)", "replace-body", "record-version", "oversize-record", "warning-alerts", "empty-record",
+var scriptFaults = []string{"replace-type", "duplicate", "omit", "truncate-body", "truncate-body+close", "set-byte", "handshake-length", "insert-record", "close-before", "close-inside", "stall", "fragment(legal)", "coalesce(legal)", "replace-body", "record-version", "oversize-record", "warning-alerts", "empty-record", "length-field", "plaintext-finished",
 	"hello-version", "hello-suites", "hello-compression", "server-bad-selection", "server-cert-list", "deadline"}
 var scriptReach = []string{"honest-client-vs-gm-server", "honest-client-vs-auto-server", "honest-server-vs-gm-client", "must-complete-completed", "must-fail-failed", "unspecified-ok", "eut-client", "eut-server-gm", "eut-server-auto", "eut-server-tls", "alert-from-eut", "timeout-at-deadline", "legit-wait", "client-auth-path", "dev-in-client-flight", "dev-in-server-flight", "dev-after-ccs"}
 
@@ -71,7 +71,7 @@ func drawDev(c *simkit.Choice, units int) (*reftls.Dev, int, string) {
 	d := &reftls.Dev{At: c.Choose(units, simkit.LFault)}
 	exp := expFail
 	why := ""
-	k := c.Weighted([]int{3, 3, 3, 3, 3, 4, 2, 4, 3, 3, 1, 3, 2, 2, 2, 1, 2, 1}, simkit.LFault)
+	k := c.Weighted([]int{3, 3, 3, 3, 3, 4, 2, 4, 3, 3, 1, 3, 2, 2, 2, 1, 2, 1, 6, 2}, simkit.LFault)
 	d.Kind = k + 1
 	switch d.Kind {
 	case reftls.DevReplaceType:
@@ -149,6 +149,15 @@ func drawDev(c *simkit.Choice, units int) (*reftls.Dev, int, string) {
 	case reftls.DevEmptyRecord:
 		exp = expAny
 		why = "empty handshake record"
+	case reftls.DevLenField:
+		d.N = c.Choose(64, simkit.LFault)
+		d.Val = []int{1, 2, 3, -1, -2, -3, 255, -100000, 65536}[c.Choose(9, simkit.LFault)]
+		why = fmt.Sprintf("one length/count field inside the message %+d", d.Val)
+	case reftls.DevPlainFinished:
+		d.At = units - 2 // the ChangeCipherSpec unit
+		d.Typ = []uint8{0, 0, 1, 11, 20}[c.Choose(5, simkit.LFault)]
+		d.Val = c.Choose(2, simkit.LFault) // 1: send HelloRequest (type 0) in place of ChangeCipherSpec
+		why = "ChangeCipherSpec omitted, Finished sent in plaintext"
 	}
 	return d, exp, why
 }
@@ -499,7 +508,15 @@ func runScriptedPeer(c *simkit.Choice, r *simkit.Rec) {
 	if r.Violation() != nil || r.HarnessErr != "" {
 		return
 	}
+	// site: role + the first deviation that fired and changed bytes (stable across
+	// the random companions a script may have)
 	site := role + "/" + sr.Why
+	for _, d := range sr.Devs {
+		if d.Fired && (d.Changed || d.Kind == reftls.DevPlainFinished) && d.Kind-1 < len(scriptFaults) {
+			site = role + "/" + scriptFaults[d.Kind-1]
+			break
+		}
+	}
 	if len(site) > 90 {
 		site = site[:90]
 	}
